@@ -189,6 +189,88 @@ fn check_dispatch(ctx: &mut Ctx, def: &[u8], cands: &[Vec<u8>]) {
     }
 }
 
+/// Instances of one mnemonic side by side (`SENSe`, `SENSe2`, `SENSe3` as siblings, in either declaration order, and
+/// one of them behind a default branch): a received mnemonic reaches exactly the instance it matches, -113 otherwise.
+fn check_dispatch_instances(ctx: &mut Ctx, rng: &mut Rng, def: &[u8], cands: &[Vec<u8>]) {
+    use crate::mon::dev::{Dev, Script};
+    use crate::mon::tree::{Built, Spec};
+    use crate::refm::mnemonic::split_suffix;
+    let (stem, suf) = split_suffix(def);
+    if stem.is_empty() || stem.len() > 10 || ref_match(def, b"WQ8") != Some(false) {
+        return;
+    }
+    // the definition itself plus the same stem with other suffixes: none (= 1) and two further numbers
+    let mut sufs: Vec<&[u8]> = vec![suf];
+    for o in [&b""[..], b"2", b"3", b"12", b"21"] {
+        let clash = sufs.iter().any(|s| (s.is_empty() || *s == b"1") && (o.is_empty() || o == b"1") || *s == o);
+        if !clash && sufs.len() < 4 {
+            sufs.push(o);
+        }
+    }
+    let mut defs: Vec<Vec<u8>> = sufs.iter().map(|s| [stem, s].concat()).filter(|d| d.len() <= 12).collect();
+    if defs.len() < 2 {
+        return;
+    }
+    // declaration order: as is, reversed or shuffled
+    match rng.usize(3) {
+        0 => {}
+        1 => defs.reverse(),
+        _ => {
+            for i in (1..defs.len()).rev() {
+                defs.swap(i, rng.usize(i + 1));
+            }
+        }
+    }
+    let scripts: Vec<Script> = (0..defs.len() as u32 + 1).map(|i| Script { id: i, omnivore: true, ..Default::default() }).collect();
+    // siblings at the root; and the last instance moved behind a default branch (still addressable by its own name)
+    let flat: Vec<Spec> = defs.iter().enumerate().map(|(i, d)| Spec::leaf(d, false, i)).collect();
+    let mut nested: Vec<Spec> = defs.iter().enumerate().take(defs.len() - 1).map(|(i, d)| Spec::leaf(d, false, i)).collect();
+    nested.insert(0, Spec::branch(b"WQ8", true, vec![Spec::leaf(&defs[defs.len() - 1], false, defs.len() - 1)]));
+    let t_flat: Built<Dev, Script> = Built::new(&flat, scripts.clone());
+    let t_nested: Built<Dev, Script> = Built::new(&nested, scripts);
+    let lexable = |c: &Vec<u8>| !c.is_empty() && c.len() <= 12 && c[0].is_ascii_alphabetic() && c.iter().all(|b| b.is_ascii_alphanumeric() || *b == b'_');
+    let mut dev = Dev::new();
+    let mut c = scpi::Context::default();
+    let mut out: Vec<u8> = Vec::new();
+    // candidates of the definition plus the forms of every instance
+    let mut all: Vec<Vec<u8>> = cands.iter().filter(|c| lexable(c)).cloned().collect();
+    for d in &defs {
+        all.push(d.clone());
+        all.push(d.to_ascii_lowercase());
+        let (h, s2) = split_suffix(d);
+        let sl = crate::refm::mnemonic::short_len(h);
+        all.push([&h[..sl], s2].concat());
+        all.push([&h[..sl], &b"1"[..]].concat());
+        all.push(h[..sl].to_vec());
+    }
+    for cand in all.iter().filter(|c| lexable(c)) {
+        if ref_match(b"WQ8", cand) != Some(false) {
+            continue;
+        }
+        let m: Vec<Option<bool>> = defs.iter().map(|d| ref_match(d, cand)).collect();
+        if m.iter().any(|x| x.is_none()) || m.iter().filter(|x| **x == Some(true)).count() > 1 {
+            continue;
+        }
+        let want: Option<u32> = m.iter().position(|x| *x == Some(true)).map(|i| i as u32);
+        for (which, tree) in [("siblings", &t_flat), ("instance-behind-default-branch", &t_nested)] {
+            bump(ctx, 1);
+            dev.clear();
+            out.clear();
+            let r = tree.root().run(cand, &mut dev, &mut c, &mut out);
+            let inv = dev.invocations();
+            let ok = match want {
+                Some(h) => inv.len() == 1 && inv[0].0 == h && r.is_ok(),
+                None => inv.is_empty() && matches!(&r, Err(e) if e.get_code() == -113),
+            };
+            ctx.count(if want.is_some() { "dispatch.instances.expected.match" } else { "dispatch.instances.expected.nomatch" });
+            if !ok {
+                let sig = if want.is_some() { "C03:dispatch:instance-that-matches-not-reached" } else { "C03:dispatch:instances:matches-but-must-not" };
+                ctx.violation(&format!("{}:{}", sig, which), jobj(&[("instances_in_declaration_order", jstr(&format!("{:?}", defs.iter().map(|d| show(d)).collect::<Vec<_>>()))), ("message", jbytes(cand)), ("expected_instance", jstr(&format!("{:?}", want))), ("invocations", jstr(&format!("{:?}", inv))), ("result", jstr(&format!("{:?}", r.as_ref().map_err(|e| e.get_code()))))]));
+            }
+        }
+    }
+}
+
 pub fn run(cfg: &Cfg, rep: &mut Report) {
     // (1) directed + random definitions
     let n = cfg.n(30, 36_000, 4_800_000);
@@ -202,6 +284,9 @@ pub fn run(cfg: &Cfg, rep: &mut Report) {
         }
         if ctx.index % 8 == 0 {
             check_dispatch(ctx, &def, &cands);
+        }
+        if ctx.index % 8 == 4 {
+            check_dispatch_instances(ctx, rng, &def, &cands);
         }
         ctx.sample(|| jobj(&[("definition", jbytes(&def)), ("candidates", nc.to_string()), ("first_candidates", jarr(&cands.iter().take(6).map(|c| jbytes(c)).collect::<Vec<_>>()))]));
     });
